@@ -8,12 +8,37 @@ HERE = os.path.dirname(os.path.dirname(os.path.abspath(__file__)))
 claims = json.load(open(os.path.join(HERE, "tools", "claims.json")))
 props = [json.loads(l) for l in open(os.path.join(HERE, "properties.jsonl"))]
 
+import importlib
+import sys
+
+sys.path.insert(0, HERE)
+
+
+def level_texts(pid, c):
+    """The manifest wording is derived from the rule module itself so that it cannot drift."""
+    mod = importlib.import_module("rules." + pid)
+    clause = " ".join(getattr(mod, "CLAUSE", "").split())
+    nd = " ".join(getattr(mod, "NOT_DECIDED", "").split())
+    text = (
+        "Structural clause decided on every run from /repo's compiled MIR (all CFG paths, not sampled inputs) - strength: %s. %s NOT decided: %s"
+        % (c.get("strength", "partial"), clause, nd)
+    )
+    tables = ", tables/panic_audit.json" if "P (" in getattr(mod, "ENGINES", "") else ""
+    note = "Trusted base: rustc MIR construction and callee resolution, the lumina-facts driver export, engine/*.py, the frozen rule table rules/%s.py%s." % (pid, tables)
+    a = getattr(mod, "ASSUMPTIONS", [])
+    if a:
+        note += " Assumptions: " + "; ".join(a)
+    return text, note, "static analysis over rustc MIR facts: " + getattr(mod, "ENGINES", "")
+
+
 checks = []
 na = []
 for p in props:
     pid = p["id"]
     c = claims.get(pid)
     if c and c.get("claimed") and os.path.exists(os.path.join(HERE, "rules", pid + ".py")):
+        c = dict(c)
+        c["text"], c["note"], c["technique"] = level_texts(pid, c)
         checks.append(
             {
                 "property_id": pid,
